@@ -159,6 +159,20 @@ def gen_case(rng, ctx):
         if wall is None:
             continue
         case["instant"] = world.to_us(inst)
+        if kind == "custom" and rng.random() < 0.3:
+            # a date-only format: the wall clock it expresses is that day's midnight in the interpreting zone
+            import pytz
+
+            wall = wall.replace(hour=0, minute=0, second=0)
+            try:
+                loc = tzi.localize(wall, is_dst=None) if hasattr(tzi, "localize") else wall.replace(tzinfo=tzi)
+            except Exception:
+                continue
+            case["instant"] = world.to_us(loc.astimezone(pytz.utc).replace(tzinfo=None))
+            fmt = rng.choice(["%Y-%m-%d", "%d/%m/%Y", "%d %B %Y"])
+            s = fmt.replace("%Y", "%04d" % wall.year).replace("%m", "%02d" % wall.month).replace("%d", "%02d" % wall.day).replace("%B", EN_MONTHS[wall.month - 1])
+            case.update({"string": s, "format": fmt})
+            return case
         if kind == "custom":
             fmt = rng.choice(["%Y-%m-%d %H:%M:%S", "%d/%m/%Y %H:%M:%S", "%Y%m%d%H%M%S"])
             s = fmt.replace("%Y", "%04d" % wall.year).replace("%m", "%02d" % wall.month).replace("%d", "%02d" % wall.day).replace("%H", "%02d" % wall.hour).replace("%M", "%02d" % wall.minute).replace("%S", "%02d" % wall.second)
